@@ -40,6 +40,10 @@ def one_case(run, specs, eri=False):
     pos = np.array([specs[0].center, [0.3, 0.1, -0.2], [4.0, -3.0, 2.0]])
     V = point_charge_integral(basis, pos, np.array([1.0, 2.5, 0.3]))
     for name, mat, sgn in [("overlap", S, 1), ("kinetic", T, 1)] + [(f"point-charge[{k}]", V[:, :, k], -1) for k in range(3)]:
+        if not np.all(np.isfinite(mat)):
+            run.violation(f"{name} matrix has non-finite elements", dict(rep, signature={"kind": "gram-finite"}))
+            ok = False
+            continue
         if np.abs(mat - mat.T).max() > 1e-9 * np.abs(mat).max():
             run.violation(f"{name} matrix not symmetric", dict(rep, signature={"kind": "gram-symmetric"}))
             ok = False
@@ -55,6 +59,10 @@ def one_case(run, specs, eri=False):
         from gbasis.integrals.electron_repulsion import electron_repulsion_integral
         g = electron_repulsion_integral(basis, notation="chemist")
         n = g.shape[0]
+        if not np.all(np.isfinite(g)):
+            run.violation(f"electron-repulsion array has {int((~np.isfinite(g)).sum())} non-finite elements of {g.size}",
+                          dict(rep, signature={"kind": "eri-finite"}))
+            return False
         G = g.reshape(n * n, n * n)
         d = np.einsum("ijij->ij", g)
         pmax = 2 * max(max(s.exps) for s in specs)
@@ -96,6 +104,20 @@ def check(run):
         extra = [ShellSpec(0, [-0.6, 0.3, 0.2], [2.0, 0.6], [[0.4], [0.7]])] if k >= 2 else []
         one_case(run, [s1, s2] + extra, eri=True)
         run.count("single-primitive shells with several contraction columns")
+    # well separated atoms carrying only tight shells (Gaussian product factors that underflow to exactly zero), with a diffuse shell
+    # on one of them and without
+    for k, (dist, e_lo, e_hi) in enumerate([(14.0, 8.0, 10.0), (40.0, 0.9, 1.5)] if quick else
+                                            [(14.0, 8.0, 10.0), (40.0, 0.9, 1.5), (25.0, 3.0, 10.0), (14.5, 9.0, 10.0), (60.0, 0.5, 1.0), (13.5, 9.5, 10.0)]):
+        d = np.array([0.6, -0.5, 0.62])
+        d = d / np.linalg.norm(d) * dist
+        specs = []
+        for ia, c in enumerate(([0.1, -0.2, 0.3], [float(x) for x in np.array([0.1, -0.2, 0.3]) + d])):
+            for l in ((0, 1) if k % 2 == 0 else (1, 0)):
+                specs.append(ShellSpec(l, c, [core.rand_exp(rng, e_lo, e_hi)], [[1.0]], sph=bool((k + l) % 2)))
+        if k % 2 == 1:
+            specs.append(ShellSpec(0, [0.1, -0.2, 0.3], [0.1], [[1.0]]))
+        one_case(run, specs, eri=True)
+        run.count("well separated atoms with tight shells only (%g bohr)" % dist)
     from checks.common import mutate_returned_spherical_objects
     mutate_returned_spherical_objects(3)
     one_case(run, [s_.copy(sph=True) for s_ in gen(rng, 3, 3, 0.3, 5.0, dependent=False, spread=1.0)])
